@@ -156,6 +156,35 @@ def run(chk):
                        'how': 'recorded run judged by spec/Trace_Argv.tla'})
     for e in events[:2]:
         chk.sample({'trace_event': e})
+    # 4b. ordinary unittest options keep their usual meaning next to the tag options: -k PATTERN ---------------------------
+    kevents, kdetail = [], {}
+    for tid in range(400 if thorough else 70):
+        structure = rich_module(rnd)
+        pat = rnd.choice(['_1', '_2', '_3', 'test_'])
+        tagsp = rnd.choice([None, '-1', '--tagged', '-0', '--istagged'])
+        eff = effective(structure)
+        cands = [c['cls'] for c in eff if c['tests']]
+        names = rnd.sample(cands, 1) if cands and rnd.random() < 0.3 else []
+        argv = ['prog'] + ([tagsp] if tagsp and tagsp.startswith('-') and not tagsp.startswith('--') else []) + \
+               ['-k', pat] + ([tagsp] if tagsp and tagsp.startswith('--') else []) + names      # (-kPATTERN in one word would feed its characters to tdda's own short-flag scan)
+        # (short tdda flags after '-k PATTERN' are outside the demanded command-line shape: the word ends the leading block)
+        got = rl.run_tdda_main(structure, argv)
+        restricted = [{'cls': c['cls'], 'ctag': c['ctag'], 'tests': [t for t in c['tests'] if pat in t['name']]} for c in eff]
+        kevents.append({'tid': tid, 'ev': 'PyRun', 'module': restricted, 'names': names, 'tagged': tagsp in ('-1', '--tagged'),
+                        'check': tagsp in ('-0', '--istagged'), 'executed': [list(x) for x in got['executed']], 'listed': got['listed'],
+                        'error': got['error'] or 'none'})
+        kdetail[tid] = {'argv': argv, 'module': structure, 'observed': got}
+        chk.count_case(('k', module_key(eff), tuple(argv)), nontrivial=bool(got['executed']))
+    resk, rejk = trace.validate('Trace_Argv', 'Trace_Argv.cfg', kevents, name='Trace_Argv_k')
+    chk.add_tlc(resk)
+    chk.coverage['traces_validated_against_impl'] += len(kevents)
+    for rej in rejk:
+        e = kevents[rej['line'] - 1]
+        if rej['bad'] == ['NoError'] and 'SystemExit(5)' in str(e['error']):
+            continue                # unittest's exit status for "no tests ran" (environment)
+        chk.violation({'kind': 'argv-run', 'clause': sorted(rej['bad'])[0], 'option': '-k'},
+                      dict(kdetail[e['tid']], failed_clauses=rej['bad'], expected_module_after_k=e['module'],
+                           how='ReferenceTestCase.main(module=<generated>, argv=[... -k PATTERN ...]); judged by spec/Trace_Argv.tla'))
     # 5. the pytest entry point: same specification, real `python -m pytest` runs --------------------------------
     pytest_runs(chk, rnd, r2.rows, 140 if not thorough else 1200, 80 if not thorough else 600)
     chk.coverage['rule'] = (
